@@ -16,7 +16,7 @@ DISPATCH = {
     "pbkdf2": A.t_pbkdf2, "pbkdf2-values": A.t_pbkdf2_values, "pbkdf2-misc": A.t_pbkdf2_misc,
     "pbkdf1": A.t_pbkdf1, "pbkdf1-misc": A.t_pbkdf1_misc,
     "hkdf-grid": A.t_hkdf_grid, "hkdf-bound": A.t_hkdf_bound, "hkdf-lens": A.t_hkdf_lens,
-    "sp108": A.t_sp108,
+    "sp108": A.t_sp108, "sp108-misc": A.t_sp108_misc,
     "scrypt-grid": B.t_scrypt_grid, "scrypt-lens": B.t_scrypt_lens, "scrypt-big": B.t_scrypt_big,
     "scrypt-refuse": B.t_scrypt_refuse,
     "bcrypt-hash": B.t_bcrypt_hash, "bcrypt-refuse": B.t_bcrypt_refuse, "bcrypt-check": B.t_bcrypt_check,
@@ -40,13 +40,15 @@ def replay(case, acc):
     if part == "pbkdf2":
         A.pbkdf2_line(case["h"], case["pw"], case["salt"], case["count"], [case["dk"]], acc)
     elif part == "pbkdf2-default":
-        A.t_pbkdf2_misc(("pbkdf2-misc",), acc)
+        A.check_pbkdf2_default(case["pw"], case["salt"], acc)
     elif part == "pbkdf1":
         A.pbkdf1_line(case["h"], case["pw"], case["salt"], case["count"], [case["dk"]], acc)
     elif part == "hkdf":
         A.hkdf_line(case["h"], case["master"], case["salt"], case["context"], [(case["kl"], case["nk"])], acc)
     elif part == "sp108":
         A.sp108_line(case["prf"], case["master"], case["label"], case["context"], [(case["kl"], case["nk"])], acc)
+    elif part == "sp108-misc":
+        A.t_sp108_misc(("sp108-misc",), acc)
     elif part == "scrypt":
         B.check_scrypt(case["pw"], case["salt"], case["kl"], case["N"], case["r"], case["p"], case["nk"], acc)
     elif part == "scrypt-refuse":
@@ -74,7 +76,7 @@ def grid_description(quick):
             "counts": [1, 2, 3, 1000],
             "dkLen": "every value 1..3*hLen+1 for counts 1,2,3 (all paths) and for count 1000 on the C fast path; "
                      "count 1000 on the generic/prf paths: {1,h-1,h,h+1,2h,2h+1,3h,3h+1}"
-                     + ("" if quick else " on the full length grid plus every dkLen on one shape"),
+                     + ("" if quick else " on the full length grid plus every dkLen on three shapes"),
             "values": "4x4 value alphabet for (password, salt) per hash; text inputs; defaults",
         },
         "pbkdf1": {"hashes": list(A.PBKDF1_HASHES), "counts": [1, 2, 3, 1000],
